@@ -194,8 +194,9 @@ PROPS = {
     level_text="Lean 4 proof about the event machine of one executor and its channel (accepted / yielded / finished / close called / close returned / callback; internal steps: flush sees nothing pending -> cancel; cancelled stream ends when nothing is buffered; for_each drops the stream after the item in flight, for_each_concurrent as soon as the stream ended): for sequential executors and for non-future items, whenever close has returned every event accepted before the call is processed, nothing is in flight, the stream is dropped; accepted events are never discarded (pending ++ inflight ++ finished is a permutation of the accepted ids); counterexample theorem for concurrent executors with future items (recorded finding). Tied to the code at history level: event logs of real Uni runs on tokio must be accepted by the machine (they are, including the failing ones) and are judged by the oracle.",
     level_note="Model M11 covers closes with an unbounded timeout; tokio / futures contracts trusted (which orders occur is observed, the model allows every order they could choose). Known finding D6.",
     lean=["C06"],
-    scenarios=[dict(bin="exec", args=["sub=close"], runs=200, model_name="M11 Exec", kinds=["close_before_processed", "panic"]), dict(bin="exec", args=["sub=close", "rt=multi"], runs=12, single=True, model_name="M11 Exec", kinds=["close_before_processed", "panic"])],
-    rule="random executor kind, limit 1-4, 0-6 events (sync / future / slow / failing items), close() called 1 ms after the sends (events buffered and / or in flight); DISTINCT by event log; NON-TRIVIAL if more than one event",
+    scenarios=[dict(bin="exec", args=["sub=close"], runs=200, model_name="M11 Exec", kinds=["close_before_processed", "panic"]), dict(bin="exec", args=["sub=close", "rt=multi"], runs=12, single=True, model_name="M11 Exec", kinds=["close_before_processed", "panic"]),
+               dict(bin="exec", args=["sub=mclose"], runs=80, single=True, model_name="M11 Exec (one event machine per listener)", kinds=["close_before_processed", "close_callback_count", "panic"])],
+    rule="random executor kind, limit 1-4, 0-6 events (sync / future / slow / failing items), close() called 1 ms after the sends (events buffered and / or in flight); `mclose`: the five queue-per-listener Multi kinds with 2-3 listeners (sequential futures executors) whose items take 0 / 3 / 10 ms, 1-12 events; DISTINCT by event log; NON-TRIVIAL if more than one event",
     trusted_base=TB_COMMON + ["tokio and futures 0.3 contracts as in C11"],
     assumptions=["unbounded close timeout"],
  ),
